@@ -23,8 +23,8 @@ impl_io_uring_read!(IoUringReadvSyscall, ReadvSyscall,
     readv(fd: c_int, iov: *const iovec, iovcnt: c_int) -> ssize_t
 );
 
-impl_nio_read_iovec!(NioReadvSyscall, ReadvSyscall,
-    readv(fd: c_int, iov: *const iovec, iovcnt: c_int,) -> ssize_t
+impl_nio_read!(NioReadvSyscall, ReadvSyscall,
+    readv(fd: c_int, iov: *const iovec, iovcnt: c_int) -> ssize_t
 );
 
 impl_raw!(RawReadvSyscall, ReadvSyscall,
